@@ -362,6 +362,51 @@ func c06Notary(w *core.WorkerCtx) {
 			}
 		}
 	}
+	// a balance request that cannot be answered: the wallet has just proposed more than it holds (a tentative tip that
+	// the next proposals will drop). The ledger answers with an error, and so must the node - on the first request
+	// and on every later one; once the tip is gone the node answers with the ledger's number again.
+	for k := 0; k < w.Pick(4, 16); k++ {
+		a := u[2+k%2]
+		w.Mark("c06 notary: unanswerable balance %d", k)
+		have, ok := ledgerSays(a)
+		if !ok {
+			continue
+		}
+		var cur, sup uint64
+		fmt.Sscanf(have, "%d.%d", &cur, &sup)
+		if propose(ledger.ForgeTrx(a, u[0].Addr, fmt.Sprintf("more than I hold %d", k), nil, spice.Melange{Currency: cur + 1 + uint64(k)}, time.Now().Add(-time.Minute))) != nil {
+			continue
+		}
+		for phase := 0; phase < 2; phase++ {
+			if phase == 1 {
+				for f := 0; f < 2; f++ {
+					propose(ledger.ForgeTrx(u[0], u[1].Addr, fmt.Sprintf("judge %d.%d", k, f), nil, spice.Melange{SupplementaryCurrency: 1}, time.Now().Add(-time.Minute)))
+				}
+			}
+			if s, err := ledger.TakeSnap(rig.Book); err != nil || len(s.Leaves) != 1 {
+				break
+			}
+			want, wok := ledgerSays(a)
+			got, gok := "", false
+			asked := 0
+			for try := 0; try < 400; try++ {
+				got, gok = ask(a)
+				asked++
+				if got == want && gok == wok && asked >= 3 {
+					break
+				}
+				if got != want || gok != wok {
+					time.Sleep(5 * time.Millisecond)
+				}
+			}
+			r.Eval(1)
+			r.Count("c06_notary_balance_comparisons", 1)
+			r.Nontriv(fmt.Sprintf("notary-balance/unanswerable/phase%d/ledger-answers=%v", phase, wok))
+			if got != want || gok != wok {
+				r.Violate("C06", fmt.Sprintf("notary-balance-stale/unanswerable/phase%d", phase), fmt.Sprintf("wallet %s proposed more than it holds; %s the node keeps answering its balance query with %s, its ledger computes %s", a.Name, []string{"while the tentative tip stands", "after the tip was dropped"}[phase], got, want), nil)
+			}
+		}
+	}
 }
 
 // c06Drained: a wallet is funded, the funding is checkpointed by a first truncation, the wallet spends everything, and a
